@@ -127,14 +127,17 @@ CLAIMS = {
         "ref": "DESIGN.md §4 C12",
     },
     "C13": {
-        "technique": "Lean 4 theorems on parse_datetime's interval construction and the date comparison table (interval spans per precision, cmp_table, trichotomy, rejection of out-of-range fields, relative days, scanner lemmas) + CLI correspondence on an edge-time grid in three fixed-offset zones + Python datetime oracle",
+        "technique": "Lean 4 theorems on parse_datetime's interval construction and the date comparison table (interval spans per precision, cmp_table, trichotomy, rejection of out-of-range fields, relative days, scanner lemmas; civil_from_days ∘ days_from_civil = id on valid dates for every year, hence printing inverts reading) + CLI correspondence on an edge-time grid in three fixed-offset and three daylight-saving zones + Python datetime oracle",
         "text": ("Theorems for every valid civil date and in-range clock fields: a literal at day/hour/minute/second precision denotes "
                  "[a, a+span-1] with span 86400/3600/60/1 and a ≤ b; for every entry time t: = ⟺ a ≤ t ≤ b, != its complement, < ⟺ t < a, "
                  "> ⟺ t > b, <= ⟺ t ≤ b, >= ⟺ t ≥ a, and exactly one of <, =, > holds; out-of-range fields and impossible dates are a "
                  "status-2 error (D56 fixed); today/yesterday denote whole local days relative to the clock parameter; the DATE_REGEX scanner "
-                 "reads YYYY-MM-DD with either separator for arbitrary digits. chrono's calendar arithmetic (modelled by Hinnant's algorithms), "
-                 "the printed `modified` column and zone handling are tied by correspondence on a grid of edge times in three fixed-offset "
-                 "zones; DST zones and chrono-english free-form dates are outside the model."),
+                 "reads YYYY-MM-DD with either separator for arbitrary digits; civil_roundtrip: civil_from_days(days_from_civil(y,m,d)) = (y,m,d) "
+                 "for every valid date of every year (structured omega proof over the era decomposition), so format_inverts_literal: the entry "
+                 "whose time is the instant a full-precision literal denotes prints exactly that literal's fields, and days_injective: "
+                 "different dates denote disjoint day intervals. That chrono computes these algorithms, and the local-time offset (fixed and "
+                 "daylight-saving zones, offset per instant taken from glibc), are tied by correspondence on a grid of edge times in six "
+                 "zones; chrono-english free-form dates are outside the model."),
         "ref": "DESIGN.md §4 C13",
     },
     "C14": {
@@ -234,8 +237,9 @@ CLAIMS = {
                  "for negatives); ABS/LEAST/GREATEST; the value of F(G(x)) is F applied to the text of the value of G(x); every call yields a "
                  "value or a status-2 diagnostic. NOT theorems (external tables/libm/crates, compared with Python on every run): Unicode case "
                  "mapping of LOWER/UPPER/INITCAP (modelled for ASCII, Latin-1, Cyrillic), POWER/SQRT/LOG/LN/EXP beyond exact cases, "
-                 "FORMAT_TIME, the UTF-8 codec inside the base64 functions, and YEAR/MONTH/DAY/DOW, whose civil-date algorithm is validated "
-                 "against Python's calendar for every day of 1900..2100 (thorough tier) rather than proved."),
+                 "FORMAT_TIME, the UTF-8 codec inside the base64 functions, and the binding of YEAR/MONTH/DAY/DOW to chrono (the civil-date "
+                 "algorithm itself is proved inverse in Lemmas/Civil.lean, see C13, and compared with Python's calendar for every day of "
+                 "1900..2100 in the thorough tier)."),
         "ref": "DESIGN.md §4 C16",
     },
     "C17": {
